@@ -38,8 +38,13 @@ ANCHORS = {
 def plan(tier, seed):
     reps = 40 if tier == 'quick' else 400
     combos = [(e, k, p) for e in ('series', 'frame') for k in KINDS for p in PATTERNS]
-    return [{'name': 'cv_%d' % i, 'kind': 'cv', 'combos': combos[i::6], 'reps': reps,
-             'seed': seed * 1000 + 280 + i} for i in range(6)]
+    shards = [{'name': 'cv_%d' % i, 'kind': 'cv', 'combos': combos[i::6], 'reps': reps,
+               'seed': seed * 1000 + 280 + i} for i in range(6)]
+    # the same workload with pandas in its legacy string mode (pd.options.future.infer_string = False,
+    # the documented opt-out of the new str dtype), where str(...) conversions go through object arrays
+    shards.append({'name': 'cv_legacy', 'kind': 'cv', 'combos': combos[1::3], 'reps': max(4, reps // 4),
+                   'seed': seed * 1000 + 287, 'legacy_str': True})
+    return shards
 
 
 INTS = [0, 0, 1, -1, 7, 42, -300, 10 ** 9, 2 ** 40, -2 ** 31, 2 ** 63 - 1, -2 ** 63]
@@ -68,7 +73,12 @@ def make_values(rng, kind, pattern):
         vals = [rng.choice(FRACS + INTEGRAL_FLOATS) for _ in range(n)]
         if n:
             vals[rng.randrange(n)] = rng.choice(FRACS)
-        if n >= 2 and rng.random() < 0.15:
+        if n >= 2 and rng.random() < 0.12:
+            # every value integral or within 1e-9 of a whole number: NOT an integral column
+            vals = [rng.choice([2.0, 5.0, 100.0, 4.35 * 100, (0.1 + 0.2) * 10, 1.1 * 3 * 10, 0.57 * 100, -7.0])
+                    for _ in range(n)]
+            vals[rng.randrange(n)] = rng.choice([4.35 * 100, (0.1 + 0.2) * 10, 0.57 * 100])
+        elif n >= 2 and rng.random() < 0.15:
             # an infinite value among integral ones: the column is NOT integral as a whole
             vals = [rng.choice([1.0, 2.0, -3.0, 100.0, 0.0]) for _ in range(n)]
             vals[rng.randrange(n)] = rng.choice([float('inf'), float('-inf')])
@@ -308,6 +318,8 @@ def known_f6(entry, kind, inplace, present, exc):
 
 
 def run_shard(shard, rec):
+    if shard.get('legacy_str'):
+        pd.set_option('future.infer_string', False)
     ssj = env.load()
     monitors.import_repo_modules()
     reach = monitors.Reach()
